@@ -382,6 +382,15 @@ def rule_scan(c: Ctx) -> RuleResult:
                   f"the lookahead cursor {sorted(cursors)} is handed to the nested tokenize as its end line")
         for a in stores:
             key = f"{f.short}|{alpha(f, a)[:60]}"
+            if isinstance(a, ast.Assign) and isinstance(a.value, ast.Name):
+                # `end = start + n + 1; state.line = end`: keyed (and judged) by the definition of the local, so that a finding
+                # keeps its identity when a temporary is introduced
+                ds_ = [n_ for n_ in own_nodes(f.node) if isinstance(n_, ast.Assign) and any(isinstance(t_, ast.Name) and t_.id == a.value.id for t_ in n_.targets)]
+                if len(ds_) == 1:
+                    import copy as _copy
+                    a2 = _copy.copy(a)
+                    a2.value = ds_[0].value
+                    key = f"{f.short}|{alpha(f, a2)[:60]}"
             if isinstance(a, ast.AugAssign):
                 okc = isinstance(a.value, ast.Constant)
                 r.add(key, c.where(f, a), f.short, U(a), "discharged" if okc else "violation",
